@@ -39,6 +39,10 @@ type Program struct {
 	allFuncs   []*ssa.Function
 	closureOf  map[*ssa.Function]*ssa.MakeClosure
 
+	callSites map[*ssa.Function][]ssa.CallInstruction // static call sites per function (lazily built)
+	// helpers whose every use was inlined (they are not part of the normal form)
+	inlinedAway map[*ssa.Function]bool
+
 	// inlining normal form (inline.go)
 	anchors     map[string]bool // functions rules refer to by name (never inlined)
 	anchorsSeen map[string]bool // functions requested by name during this run
@@ -167,7 +171,7 @@ func (p *Program) PkgFuncs(rel string) []*ssa.Function {
 	var add func(f *ssa.Function)
 
 	add = func(f *ssa.Function) {
-		if f == nil || seen[f] {
+		if f == nil || seen[f] || p.inlinedAway[f] {
 			return
 		}
 
